@@ -610,7 +610,9 @@ func (d *Decoder) decodeData(tr TemplateRecord) ([]DecodedField, error) {
 	}
 
 	if len(fields) == 0 {
-		return nil, fmt.Errorf("failed to decodeData")
+		// a template without fields (a template record with field count 0): the set can not be
+		// decoded and is skipped by its length, the other sets of the message are kept
+		return nil, nonfatalError{fmt.Errorf("failed to decodeData")}
 	}
 
 	return fields, nil
